@@ -3,6 +3,7 @@
 #ifndef VSIM_ACCESSORS_H
 #define VSIM_ACCESSORS_H
 #include <manif/manif.h>
+#include <cstring>
 #include "optypes.h"
 
 namespace vsim {
@@ -16,13 +17,25 @@ struct Collector {
   }
 };
 
+template <class X, class Y> inline bool bits_eq(const Eigen::MatrixBase<X>& x, const Eigen::MatrixBase<Y>& y) {
+  typedef typename X::Scalar S;
+  if (x.rows() != y.rows() || x.cols() != y.cols()) return false;
+  for (int c = 0; c < x.cols(); ++c)
+    for (int r = 0; r < x.rows(); ++r) { const S u = x(r, c), v = y(r, c); if (std::memcmp(&u, &v, sizeof(S)) != 0) return false; }
+  return true;
+}
+
 // ---- elements: const accessors -------------------------------------------------------------------------------
+// held(a, b, acc): accessor results of a bound to const references, the same accessors then used on b; true when the
+// held results are unchanged afterwards.
 template <class G> struct Acc {   // default: nothing group specific
   template <class A> static bool read(const A&, Collector&) { return false; }
+  template <class A, class B> static bool held(const A&, const B&, double&) { return true; }
   template <class A, class B> static bool set_from(A&, const B&, int) { return false; }
 };
 template <class S> struct Acc<manif::SO2<S> > {
   template <class A> static bool read(const A& a, Collector& c) { c.s(a.real()); c.s(a.imag()); c.s(a.angle()); c.m(a.rotation()); c.m(a.transform()); return true; }
+  template <class A, class B> static bool held(const A&, const B&, double&) { return true; }
   template <class A, class B> static bool set_from(A&, const B&, int) { return false; }
 };
 template <class S> struct Acc<manif::SE2<S> > {
@@ -30,11 +43,23 @@ template <class S> struct Acc<manif::SE2<S> > {
     c.s(a.x()); c.s(a.y()); c.s(a.real()); c.s(a.imag()); c.s(a.angle()); c.m(a.translation()); c.m(a.rotation());
     c.m(a.isometry().matrix()); c.m(a.transform()); return true;
   }
+  template <class A, class B> static bool held(const A& a, const B& b, double& acc) {
+    const auto& t = a.translation(); const auto& iso = a.isometry();
+    const Eigen::Matrix<S, 2, 1> t0 = t; const Eigen::Matrix<S, 3, 3> i0 = iso.matrix();
+    acc += (double)b.translation()(0) + (double)b.isometry().matrix()(0, 0);
+    return bits_eq(t, t0) && bits_eq(iso.matrix(), i0);
+  }
   template <class A, class B> static bool set_from(A&, const B&, int) { return false; }
 };
 template <class S> struct Acc<manif::SO3<S> > {
   template <class A> static bool read(const A& a, Collector& c) {
     c.s(a.x()); c.s(a.y()); c.s(a.z()); c.s(a.w()); c.m(a.quat().coeffs()); c.m(a.rotation()); c.m(a.transform()); return true;
+  }
+  template <class A, class B> static bool held(const A& a, const B& b, double& acc) {
+    const auto& q = a.quat();
+    const Eigen::Matrix<S, 4, 1> q0 = q.coeffs();
+    acc += (double)b.quat().coeffs()(0);
+    return bits_eq(q.coeffs(), q0);
   }
   template <class A, class B> static bool set_from(A& a, const B& b, int how) {
     if (how & 1) a.quat(b.quat()); else { const Eigen::Matrix<S, 4, 1> q = b.coeffs(); a.quat(q); }
@@ -45,6 +70,12 @@ template <class S> struct Acc<manif::SE3<S> > {
   template <class A> static bool read(const A& a, Collector& c) {
     c.s(a.x()); c.s(a.y()); c.s(a.z()); c.m(a.quat().coeffs()); c.m(a.translation()); c.m(a.rotation());
     c.m(a.isometry().matrix()); c.m(a.transform()); return true;
+  }
+  template <class A, class B> static bool held(const A& a, const B& b, double& acc) {
+    const auto& q = a.quat(); const auto& t = a.translation(); const auto& iso = a.isometry();
+    const Eigen::Matrix<S, 4, 1> q0 = q.coeffs(); const Eigen::Matrix<S, 3, 1> t0 = t; const Eigen::Matrix<S, 4, 4> i0 = iso.matrix();
+    acc += (double)b.quat().coeffs()(0) + (double)b.translation()(0) + (double)b.isometry().matrix()(0, 0);
+    return bits_eq(q.coeffs(), q0) && bits_eq(t, t0) && bits_eq(iso.matrix(), i0);
   }
   template <class A, class B> static bool set_from(A& a, const B& b, int how) {
     switch (how % 3) {
@@ -61,12 +92,26 @@ template <class S> struct Acc<manif::SE_2_3<S> > {
     c.s(a.x()); c.s(a.y()); c.s(a.z()); c.s(a.vx()); c.s(a.vy()); c.s(a.vz()); c.m(a.quat().coeffs()); c.m(a.translation());
     c.m(a.linearVelocity()); c.m(a.rotation()); c.m(a.isometry()); c.m(a.transform()); return true;
   }
+  template <class A, class B> static bool held(const A& a, const B& b, double& acc) {
+    const auto& q = a.quat(); const auto& t = a.translation(); const auto& v = a.linearVelocity(); const auto& iso = a.isometry();
+    const Eigen::Matrix<S, 4, 1> q0 = q.coeffs(); const Eigen::Matrix<S, 3, 1> t0 = t, v0 = v;
+    const Eigen::Matrix<S, Eigen::Dynamic, Eigen::Dynamic> i0 = iso;
+    acc += (double)b.quat().coeffs()(0) + (double)b.translation()(0) + (double)b.linearVelocity()(0) + (double)b.isometry()(0, 0);
+    return bits_eq(q.coeffs(), q0) && bits_eq(t, t0) && bits_eq(v, v0) && bits_eq(iso, i0);
+  }
   template <class A, class B> static bool set_from(A&, const B&, int) { return false; }
 };
 template <class S> struct Acc<manif::SGal3<S> > {
   template <class A> static bool read(const A& a, Collector& c) {
     c.s(a.x()); c.s(a.y()); c.s(a.z()); c.s(a.vx()); c.s(a.vy()); c.s(a.vz()); c.s(a.t()); c.m(a.quat().coeffs()); c.m(a.translation());
     c.m(a.linearVelocity()); c.m(a.rotation()); c.m(a.isometry()); c.m(a.transform()); return true;
+  }
+  template <class A, class B> static bool held(const A& a, const B& b, double& acc) {
+    const auto& q = a.quat(); const auto& t = a.translation(); const auto& v = a.linearVelocity(); const auto& iso = a.isometry();
+    const Eigen::Matrix<S, 4, 1> q0 = q.coeffs(); const Eigen::Matrix<S, 3, 1> t0 = t, v0 = v;
+    const Eigen::Matrix<S, Eigen::Dynamic, Eigen::Dynamic> i0 = iso;
+    acc += (double)b.quat().coeffs()(0) + (double)b.translation()(0) + (double)b.linearVelocity()(0) + (double)b.isometry()(0, 0);
+    return bits_eq(q.coeffs(), q0) && bits_eq(t, t0) && bits_eq(v, v0) && bits_eq(iso, i0);
   }
   template <class A, class B> static bool set_from(A&, const B&, int) { return false; }
 };
@@ -83,6 +128,7 @@ template <class S, template <typename> class... T> struct Acc<manif::Bundle<S, T
     c.m(e0.inverse().coeffs()); c.m(el.log().coeffs());
     return true;
   }
+  template <class A, class BB> static bool held(const A&, const BB&, double&) { return true; }
   template <class A, class BB> static bool set_from(A&, const BB&, int) { return false; }   // element writes: OP_M_SUBVIEW_WRITE
 };
 
